@@ -103,6 +103,7 @@ static int cmd_vmreplay(int, char**) {
     }
     if (!loaded) { th::emit({{"i", in["i"]}, {"error", "no program"}}); continue; }
     g_case = in["i"].get<long>();
+    th::emit({{"b", in["i"]}});
     VM v(cr.code);
     json obs = json::array();
     for (auto& c : in["h"]) {
@@ -151,6 +152,7 @@ static int cmd_vmtrace(int, char**) {
       std::string ret = "none";
       alarm(20);
       if (style == "single") r = 0;
+      if (style == "reset_heavy" && pick(12) == 0) r = 90;  // more resets, also right after partial runs
       if (r < 45) {
         // log the executed instruction's ADD result so that an overflowing addition can be bound (C20)
         int ip = v.verifInstructionPointer();
